@@ -2428,6 +2428,11 @@ class RawAlgorithmsMixIn:
         D,P = x_data.shape[:2]
         for d in range(D):
             for p in range(P):
-                out[d,p] += numpy.diag(ybar_data[d,p])
+                tmp = numpy.diag(ybar_data[d,p])
+                if tmp.ndim == 2:
+                    # y = diag(x) of an (M,N) matrix x: tmp is square of size min(M,N)
+                    out[d,p,:tmp.shape[0],:tmp.shape[1]] += tmp
+                else:
+                    out[d,p] += tmp
 
         return out
